@@ -12,9 +12,9 @@
 // The server's --log-level is error | info | debug per instance (seed-chosen): argument formatting inside
 // `tracing::debug!` only runs at debug level.
 use crate::cmd::hostile_keys;
-use crate::metrics::lex_sample;
+use crate::metrics::{lex_sample, unescape_label};
 use crate::util::*;
-use crate::wire::{grpc_call, http_raw, http_throttle, json_body, resp_answer, resp_command, Logical, Ports, Proto, RespConn, WireAns};
+use crate::wire::{grpc_call, http_post_bytes, http_raw, http_throttle, json_body, large_keys, resp_answer, resp_command, resp_command_min, simultaneous, Logical, Ports, Proto, RespConn, WireAns};
 use std::collections::BTreeMap;
 use std::process::{Child, Command, Stdio};
 use std::sync::Arc;
@@ -155,33 +155,6 @@ struct Cx {
     launch: String,
     /// key -> number of times a client was told allowed=false for it
     denied_keys: BTreeMap<String, u64>,
-}
-
-/// undo the exporter's label escaping (`\\ \" \n \r \t \xNN`)
-fn unescape_label(s: &str) -> String {
-    let cs: Vec<char> = s.chars().collect();
-    let mut o = String::new();
-    let mut i = 0;
-    while i < cs.len() {
-        if cs[i] == '\\' && i + 1 < cs.len() {
-            i += 1;
-            match cs[i] {
-                'n' => o.push('\n'),
-                'r' => o.push('\r'),
-                't' => o.push('\t'),
-                'x' if i + 2 < cs.len() => {
-                    let h: String = cs[i + 1..i + 3].iter().collect();
-                    o.push(u8::from_str_radix(&h, 16).map(|b| b as char).unwrap_or('?'));
-                    i += 2;
-                }
-                c => o.push(c),
-            }
-        } else {
-            o.push(cs[i]);
-        }
-        i += 1;
-    }
-    o
 }
 
 /// `throttlecrab_top_denied_keys` samples of an export: (unescaped key, value)
@@ -453,9 +426,298 @@ async fn same_answers(cx: &mut Cx, inst: usize, out: &mut Out) {
 }
 
 // ----------------------------------------------------------------------------------------
+// (a2) C09 / C12: distinct long keys that share a long prefix
+// ----------------------------------------------------------------------------------------
+async fn key_families(cx: &mut Cx, inst: usize, out: &mut Out) {
+    for round in 0..2usize {
+        let k = inst * 2 + round;
+        let prefix = crate::cmd::FAMILY_PREFIXES[k % 5];
+        let max_len = if k % 5 >= 3 { 60_000 } else { 6_000 };
+        let fam = crate::cmd::prefix_family(&mut cx.rng, &format!("bf{inst}_{round}_"), prefix, k % 2 == 1, max_len);
+        let b = cx.rng.range(1, 3);
+        let start = cx.rng.below(3) as usize;
+        let from = cx.log.len();
+        cx.log.push(format!("key family: {}; burst {b}, 1 per 86400 s", fam.what));
+        for (ki, key) in fam.keys[..3].iter().enumerate() {
+            for i in 0..=b {
+                let proto = PERMS[0][(start + ki + i as usize) % 3];
+                let l = Logical { key: key.clone(), b, c: 1, p: 86400, q: Some(1) };
+                let ans = cx.send(proto, &l).await;
+                out.bump("family_requests");
+                let good = if i < b { matches!(ans, WireAns::Ok(true, lim, rem, _, 0) if lim == b && rem == b - 1 - i) } else { matches!(ans, WireAns::Ok(false, lim, 0, _, _) if lim == b) };
+                if !good {
+                    let (prop, why) = if matches!(ans, WireAns::Ok(..)) { ("C09", "distinct keys have independent budgets") } else { ("C12", "every protocol answers the request with the limiter's decision") };
+                    out.violation(
+                        prop,
+                        format!("request {} of {} on the so far unused key {} of a family ({}) went over {proto:?} and was answered {}, want ok,{},{b},{},_,_ ({why})", i + 1, b + 1, ki + 1, fam.what, ans.show(), (i < b) as u8, (b - 1 - i).max(0)),
+                        cx.tail(from),
+                    );
+                }
+            }
+        }
+        // key 4 = key 1 (exhausted by now) but for its last byte: N simultaneous requests admit min(N, burst)
+        let key = fam.keys[3].clone();
+        let nreq = (b + cx.rng.range(1, 6)) as usize;
+        let l = Logical { key: key.clone(), b, c: 1, p: 86400, q: Some(1) };
+        let answers = simultaneous(&cx.ports, &mut cx.rng, &l, nreq).await;
+        let mut admitted = 0i64;
+        for (proto, a, st) in &answers {
+            cx.tally.account(*proto, a, *st);
+            if let WireAns::Ok(true, ..) = a {
+                admitted += 1;
+            }
+        }
+        cx.log.push(format!("{nreq} simultaneous unit requests on key 4 ({} bytes): {}", key.len(), answers.iter().map(|x| format!("{:?}:{}", x.0, x.1.show())).collect::<Vec<_>>().join(" ")));
+        out.bump("family_races");
+        if admitted != (nreq as i64).min(b) {
+            out.violation("C09", format!("{nreq} simultaneous unit requests over mixed protocols on an unused key of {} bytes, burst {b}, while a key that differs from it in the last byte only is exhausted: {admitted} admitted, want {}", key.len(), (nreq as i64).min(b)), cx.tail(from));
+        }
+    }
+}
+
+// ----------------------------------------------------------------------------------------
+// (b2) C12: large requests get the same answer on every protocol
+// ----------------------------------------------------------------------------------------
+async fn large_requests(cx: &mut Cx, inst: usize, out: &mut Out) {
+    let (b, c, p) = (10i64, 1i64, 3600i64);
+    let all = large_keys(&mut cx.rng, &format!("bl{inst}_"), b, c, p);
+    // every instance takes the largest plain key and three of the others (all of them over an instance pair)
+    let n_all = all.len();
+    let picked: Vec<(String, String)> = all.into_iter().enumerate().filter(|(i, _)| *i == n_all - 1 || (i + inst) % 2 == 0).map(|x| x.1).collect();
+    for (what, key) in picked {
+        let start = cx.rng.below(3) as usize;
+        let from = cx.log.len();
+        cx.log.push(format!("one bucket (burst {b}, {c} per {p} s) addressed over RESP, gRPC and HTTP with a key of {what}"));
+        for i in 0..3usize {
+            let proto = [Proto::Resp, Proto::Grpc, Proto::Http][(start + i) % 3];
+            let l = Logical { key: key.clone(), b, c, p, q: if proto == Proto::Grpc { Some(1) } else { None } };
+            let ans = if proto == Proto::Resp {
+                // the shortest encoding, on a connection of its own (its buffer holds nothing else)
+                let r = match RespConn::open(cx.ports.resp).await {
+                    Ok(mut conn) => conn.call(&resp_command_min(&l)).await,
+                    Err(e) => Err(e),
+                };
+                let a = resp_answer(r);
+                cx.tally.account(Proto::Resp, &a, 0);
+                cx.log.push(format!("RESP THROTTLE <key of {} bytes> :{b} :{c} :{p} -> {}", key.len(), a.show()));
+                a
+            } else {
+                cx.send(proto, &l).await
+            };
+            out.bump("large_requests");
+            let want_rem = b - 1 - i as i64;
+            if !matches!(ans, WireAns::Ok(true, lim, rem, _, 0) if lim == b && rem == want_rem) {
+                let shown = match &ans {
+                    WireAns::Err(e) => format!("error {:?}", e.chars().take(120).collect::<String>()),
+                    a => a.show(),
+                };
+                out.violation("C12", format!("key of {what}: request {} on the shared bucket went over {proto:?} and was answered {shown}, want ok,1,{b},{want_rem},_,0 as on the other protocols", i + 1), cx.tail(from));
+            }
+        }
+    }
+    // HTTP alone: bodies of 100 KB and 1 MB are below the framework's 2 MB default
+    for len in [100_000usize, 1_000_000] {
+        let l = Logical { key: format!("bl{inst}_http_{}", "k".repeat(len)), b, c, p, q: None };
+        let from = cx.log.len();
+        let ans = cx.send(Proto::Http, &l).await;
+        out.bump("large_requests");
+        if !matches!(ans, WireAns::Ok(true, 10, 9, _, 0)) {
+            let shown = match &ans {
+                WireAns::Err(e) => format!("error {:?}", e.chars().take(120).collect::<String>()),
+                a => a.show(),
+            };
+            out.violation("C12", format!("HTTP request with a key of {len} bytes (below the 2 MB body limit) was answered {shown}, want ok,1,10,9,_,0"), cx.tail(from));
+        }
+    }
+}
+
+// ----------------------------------------------------------------------------------------
+// (b3) C10 / C14 / C12: the slow reader (see slow.rs)
+// ----------------------------------------------------------------------------------------
+async fn slow_reader(cx: &mut Cx, inst: usize, out: &mut Out) {
+    let plan = Arc::new(crate::slow::plan(&mut cx.rng, &format!("bin{inst}")));
+    let (p2, port) = (Arc::clone(&plan), cx.ports.resp);
+    let o = match tokio::task::spawn_blocking(move || crate::slow::run_blocking(port, &p2)).await {
+        Ok(o) => o,
+        Err(_) => return,
+    };
+    // every command is a counted RESP request, all of them allowed
+    cx.tally.sent_resp += plan.cmds.len() as u64;
+    cx.tally.resp += plan.cmds.len() as u64;
+    cx.log.push(format!("slow reader: {} pipelined RESP commands ({} bytes), {} reply bytes read after holding back {} ms", plan.cmds.len(), plan.bytes.len(), o.got.len(), o.held_ms));
+    crate::slow::report(out, &plan, &o, &cx.launch.clone());
+}
+
+// ----------------------------------------------------------------------------------------
+// (e) C15: abandoned requests
+// ----------------------------------------------------------------------------------------
+fn scrape_counters(text: &str) -> Option<[u64; 7]> {
+    let mut vals: BTreeMap<String, u64> = BTreeMap::new();
+    for line in text.split('\n') {
+        if line.is_empty() || line.starts_with('#') {
+            continue;
+        }
+        if let Ok(s) = lex_sample(line) {
+            let k = if s.labels.is_empty() { s.name.clone() } else { format!("{}{{{}}}", s.name, s.labels[0].1) };
+            if let Ok(v) = s.value.parse::<u64>() {
+                vals.insert(k, v);
+            }
+        }
+    }
+    let names = [
+        "throttlecrab_requests_total",
+        "throttlecrab_requests_by_transport{http}",
+        "throttlecrab_requests_by_transport{grpc}",
+        "throttlecrab_requests_by_transport{redis}",
+        "throttlecrab_requests_allowed",
+        "throttlecrab_requests_denied",
+        "throttlecrab_requests_errors",
+    ];
+    let mut o = [0u64; 7];
+    for (i, n) in names.iter().enumerate() {
+        o[i] = *vals.get(*n)?;
+    }
+    Some(o)
+}
+
+async fn scrape(cx: &Cx) -> Option<[u64; 7]> {
+    match http_raw(cx.ports.http, b"GET /metrics HTTP/1.1\r\nHost: x\r\nConnection: close\r\n\r\n").await {
+        Ok((200, text)) => scrape_counters(&text),
+        _ => None,
+    }
+}
+
+/// Complete requests whose sender closes (FIN) or aborts (RST) at once without reading the answer, while other
+/// connections keep the limiter busy (it matters most with `--buffer-size 1`).  Whether an abandoned request is
+/// counted depends on timing; at the quiescent end (GET /metrics unchanged for 300 ms) the identities must hold.
+async fn abandoned_requests(cx: &mut Cx, inst: usize, n: usize, out: &mut Out) {
+    let Some(before) = scrape(cx).await else {
+        out.violation("C15", "GET /metrics failed before the abandoned requests".into(), vec![format!("# {}", cx.launch)]);
+        return;
+    };
+    let nab = (n * 3).clamp(60, 300);
+    let mut tasks = vec![];
+    let answered = Arc::new([std::sync::atomic::AtomicU64::new(0), std::sync::atomic::AtomicU64::new(0), std::sync::atomic::AtomicU64::new(0)]);
+    for f in 0..8usize {
+        let mut r = cx.rng.fork();
+        let (hp, gp, rp) = (cx.ports.http, cx.ports.grpc, cx.ports.resp);
+        let answered = Arc::clone(&answered);
+        tasks.push(tokio::spawn(async move {
+            use std::sync::atomic::Ordering::SeqCst;
+            let mut conn = RespConn::open(rp).await.ok();
+            for i in 0..40 {
+                let l = Logical { key: format!("bin{inst}_flood{f}_{}", i % 3), b: 2, c: 1, p: 3600, q: Some(1) };
+                match (f + i) % 4 {
+                    0 => {
+                        let body = json_body(&mut r, &l);
+                        let (_, st) = http_throttle(hp, &body).await;
+                        if st == 200 || st == 500 {
+                            answered[0].fetch_add(1, SeqCst);
+                        }
+                    }
+                    1 => {
+                        if !matches!(grpc_call(gp, &l).await, WireAns::Broken(_)) {
+                            answered[1].fetch_add(1, SeqCst);
+                        }
+                    }
+                    _ => {
+                        if let Some(c) = conn.as_mut() {
+                            if c.call(&resp_command(&mut r, &l)).await.is_ok() {
+                                answered[2].fetch_add(1, SeqCst);
+                            }
+                        }
+                    }
+                }
+            }
+        }));
+    }
+    let mut sent = [0u64; 3];
+    for i in 0..nab {
+        let l = Logical { key: format!("bin{inst}_abandoned{}", i % 7), b: 2, c: 1, p: 3600, q: Some(1) };
+        let rst = cx.rng.chance(1, 2);
+        let linger = cx.rng.pick(&[0u64, 0, 0, 20, 100, 400]);
+        match i % 5 {
+            0 | 1 | 2 => {
+                let req = http_post_bytes(&json_body(&mut cx.rng, &l));
+                let p = cx.ports.http;
+                sent[0] += 1;
+                tasks.push(tokio::spawn(async move {
+                    crate::net::abandon(p, req, rst, linger).await;
+                }));
+            }
+            3 => {
+                let mut req = resp_command(&mut cx.rng, &l);
+                req.extend(resp_command(&mut cx.rng, &l));
+                let p = cx.ports.resp;
+                sent[2] += 2;
+                tasks.push(tokio::spawn(async move {
+                    crate::net::abandon(p, req, rst, linger).await;
+                }));
+            }
+            _ => {
+                let gp = cx.ports.grpc;
+                sent[1] += 1;
+                let us = cx.rng.pick(&[50u64, 150, 300, 600, 1500]);
+                tasks.push(tokio::spawn(async move {
+                    let _ = tokio::time::timeout(Duration::from_micros(us), grpc_call(gp, &l)).await;
+                }));
+            }
+        }
+        if i % 16 == 15 {
+            tokio::task::yield_now().await;
+        }
+    }
+    for t in tasks {
+        let _ = t.await;
+    }
+    // quiescence: GET /metrics shows the same counters for 300 ms (at most 6 s)
+    let t0 = Instant::now();
+    let mut last = scrape(cx).await;
+    let mut stable_since = Instant::now();
+    loop {
+        tokio::time::sleep(Duration::from_millis(50)).await;
+        let c = scrape(cx).await;
+        if c != last {
+            last = c;
+            stable_since = Instant::now();
+        }
+        if stable_since.elapsed() >= Duration::from_millis(300) || t0.elapsed() >= Duration::from_secs(6) {
+            break;
+        }
+    }
+    let ans: Vec<u64> = answered.iter().map(|a| a.load(std::sync::atomic::Ordering::SeqCst)).collect();
+    out.add("abandoned_requests", sent.iter().sum());
+    let replay = vec![
+        format!("# {}", cx.launch),
+        format!(
+            "# {} HTTP requests, {} RESP commands and {} RPCs sent complete and abandoned at once (close or RST, nothing read), next to {} + {} + {} answered requests on other connections; /metrics before: total {} http {} grpc {} redis {} allowed {} denied {} errors {}",
+            sent[0], sent[2], sent[1], ans[0], ans[1], ans[2], before[0], before[1], before[2], before[3], before[4], before[5], before[6]
+        ),
+    ];
+    let Some(c) = last else {
+        out.violation("C15", "GET /metrics failed after the abandoned requests".into(), replay);
+        return;
+    };
+    let (total, http, grpc, redis, allowed, denied, errors) = (c[0], c[1], c[2], c[3], c[4], c[5], c[6]);
+    out.add("abandoned_requests_counted", (total - before[0]).saturating_sub(ans.iter().sum()));
+    if total != http + grpc + redis || total != allowed + denied + errors {
+        out.violation("C15", format!("after abandoned requests, at a quiescent point: total {total} http {http} grpc {grpc} redis {redis} allowed {allowed} denied {denied} errors {errors}: total != http+grpc+redis or total != allowed+denied+errors"), replay.clone());
+    }
+    for (have, least, name) in [(http, before[1] + ans[0], "http"), (grpc, before[2] + ans[1], "grpc"), (redis, before[3] + ans[2], "redis")] {
+        if have < least {
+            out.violation("C15", format!("after abandoned requests: {name} counter {have} is below the {least} requests that were answered"), replay.clone());
+        }
+    }
+    let upper = before[0] + ans.iter().sum::<u64>() + sent.iter().sum::<u64>();
+    if total > upper {
+        out.violation("C15", format!("after abandoned requests: total {total} exceeds everything that was sent ({upper})"), replay);
+    }
+}
+
+// ----------------------------------------------------------------------------------------
 // (c) C11
 // ----------------------------------------------------------------------------------------
-async fn no_poison(cx: &mut Cx, inst: usize, max_denied: u64, child: &mut ChildGuard, out: &mut Out) {
+async fn no_poison(cx: &mut Cx, inst: usize, max_denied: u64, verbose_log: bool, n: usize, child: &mut ChildGuard, out: &mut Out) {
     let from = cx.log.len();
     for proto in PERMS[inst % 6] {
         let big = if proto == Proto::Grpc { i32::MAX as i64 } else { i64::MAX };
@@ -498,6 +760,52 @@ async fn no_poison(cx: &mut Cx, inst: usize, max_denied: u64, child: &mut ChildG
                         format!("{proto:?}: request {} of a pair on a fresh hostile key ({what}, {} bytes), burst 1, 1 per 3600 s, answered {}, want {}", half + 1, key.len(), a.show(), if half == 0 { "ok,1,1,0,_,_" } else { "ok,0,1,0,_,>=0" }),
                         cx.tail(from),
                     );
+                }
+            }
+        }
+    }
+    // requests the limiter REJECTS (burst 0 / count 0 / period 0 / quantity -1: its error path runs) on every hostile key and
+    // on keys with a multi-byte character across byte offsets 16 .. 1024, on every protocol: all eight offsets on an
+    // instance that logs at debug / trace level (that is where the arguments of debug! / trace! are evaluated), two of
+    // them elsewhere
+    {
+        let offs: Vec<usize> = if verbose_log { crate::cmd::STRADDLE_OFFSETS.to_vec() } else { vec![crate::cmd::STRADDLE_OFFSETS[inst % 8], crate::cmd::STRADDLE_OFFSETS[(inst + 3) % 8]] };
+        for (pi, proto) in PERMS[(inst + 2) % 6].into_iter().enumerate() {
+            let tag = format!("rj{inst}_{pi}_");
+            let mut keys: Vec<(String, String)> = hostile_keys(&tag, pi as u32).into_iter().map(|(w, k)| (w.to_string(), k)).collect();
+            keys.extend(crate::cmd::straddle_keys(&tag, &offs));
+            for (what, key) in keys {
+                for (b, c, p, q) in crate::cmd::REJECTED {
+                    let l = Logical { key: key.clone(), b, c, p, q: Some(q) };
+                    let a = cx.send(proto, &l).await;
+                    out.bump("rejected_hostile_key_requests");
+                    match &a {
+                        WireAns::Err(e) if !(e.contains("has shut down") || e.contains("dropped response channel")) => {}
+                        other => {
+                            let txt = match other {
+                                WireAns::Err(e) => e.clone(),
+                                a => a.show(),
+                            };
+                            out.violation(
+                                "C11",
+                                format!("{proto:?}: a request the limiter must reject with an error (key: {what}, {} bytes; limits {b}/{c}/{p}, quantity {q}) was answered {:?}", key.len(), txt.chars().take(160).collect::<String>()),
+                                cx.tail(cx.log.len().saturating_sub(6)),
+                            );
+                        }
+                    }
+                }
+                // ... and one it allows, then one it denies (the hostile keys proper had theirs above)
+                if what.contains("char across byte") && key.ends_with("~t") {
+                    for half in 0..2 {
+                        let l = Logical { key: key.clone(), b: 1, c: 1, p: 3600, q: Some(1) };
+                        let a = cx.send(proto, &l).await;
+                        out.bump("hostile_key_requests");
+                        let good = if half == 0 { matches!(a, WireAns::Ok(true, 1, 0, _, _)) } else { matches!(a, WireAns::Ok(false, 1, 0, _, rt) if rt >= 0) };
+                        if !good {
+                            let prop = if matches!(a, WireAns::Ok(..)) { "C12" } else { "C11" };
+                            out.violation(prop, format!("{proto:?}: request {} of a pair on a fresh key ({what}, {} bytes), burst 1, 1 per 3600 s, answered {}, want {}", half + 1, key.len(), a.show(), if half == 0 { "ok,1,1,0,_,_" } else { "ok,0,1,0,_,>=0" }), cx.tail(cx.log.len().saturating_sub(8)));
+                        }
+                    }
                 }
             }
         }
@@ -571,7 +879,17 @@ async fn no_poison(cx: &mut Cx, inst: usize, max_denied: u64, child: &mut ChildG
         cx.log.push(format!("{name} connection closed by the client after {}", printable(bytes)));
         out.bump("hostile_requests");
     }
-    tokio::time::sleep(Duration::from_millis(30)).await;
+    // abort storms: connections reset (RST, SO_LINGER 0) right after connect - before the server has accepted them -
+    // some with an incomplete request pending, eight threads at once
+    for (name, port) in [("http", cx.ports.http), ("grpc", cx.ports.grpc), ("resp", cx.ports.resp)] {
+        let partials = crate::net::partial_requests(name);
+        let seed2 = cx.rng.next_u64();
+        let total = (n * 5).clamp(100, 400);
+        let st = tokio::task::spawn_blocking(move || crate::net::abort_storm(port, total, 8, &partials, seed2)).await.unwrap_or_default();
+        out.add("aborted_connections", st.connected);
+        cx.log.push(format!("abort storm on the {name} port: {} connections reset right after connect, {} of them after writing an incomplete request", st.connected, st.with_data));
+    }
+    tokio::time::sleep(Duration::from_millis(50)).await;
     // probes on NEW connections of each protocol
     cx.resp_conn = None;
     for proto in [Proto::Http, Proto::Grpc, Proto::Resp] {
@@ -759,26 +1077,33 @@ struct Plan {
     log_level: &'static str,
 }
 
-/// seed-chosen configurations; with 3 instances or more at least one runs at `--log-level debug` with a
-/// denied-keys report large enough (100) to list every key denied in the instance
+/// seed-chosen configurations.  Always (whatever the number of instances) one instance runs at `--log-level debug`
+/// with a denied-keys report large enough (1000) to list every key denied in the instance; with two instances or
+/// more another one runs at `--log-level trace` and at least one has `--buffer-size 1`.
 fn plan_instances(rng: &mut Rng, instances: usize) -> Vec<Plan> {
     let mut plans: Vec<Plan> = (0..instances)
         .map(|_| Plan {
             store: rng.pick(&["periodic", "adaptive", "probabilistic"]),
             buffer: rng.pick(&[1u64, 2, 100_000]),
             max_denied: rng.pick(&[0u64, 5, 100]),
-            log_level: rng.pick(&["error", "info", "debug"]),
+            log_level: rng.pick(&["error", "warn", "info", "debug", "trace"]),
         })
         .collect();
-    if instances >= 3 && !plans.iter().any(|p| p.log_level == "debug" && p.max_denied == 100) {
-        let i = rng.below(instances as u64) as usize;
-        plans[i].log_level = "debug";
-        plans[i].max_denied = 100;
+    let i = rng.below(instances as u64) as usize;
+    plans[i].log_level = "debug";
+    plans[i].max_denied = 1000;
+    if instances >= 2 {
+        let j = (i + 1 + rng.below(instances as u64 - 1) as usize) % instances;
+        plans[j].log_level = "trace";
+        if !plans.iter().any(|p| p.buffer == 1) {
+            let k = rng.below(instances as u64) as usize;
+            plans[k].buffer = 1;
+        }
     }
     plans
 }
 
-async fn instance(inst: usize, bin: &str, plan: &Plan, rng: &mut Rng, out: &mut Out) {
+async fn instance(inst: usize, bin: &str, plan: &Plan, with_slow_reader: bool, n: usize, rng: &mut Rng, out: &mut Out) {
     let ports = free_ports();
     let Plan { store, buffer, max_denied, log_level } = plan.clone();
     let descr = format!("instance {inst} store {store} buffer-size {buffer} max-denied-keys {max_denied} log-level {log_level}");
@@ -843,9 +1168,15 @@ async fn instance(inst: usize, bin: &str, plan: &Plan, rng: &mut Rng, out: &mut 
     let mut cx = Cx { ports, rng: rng.fork(), tally: Tally::default(), log: vec![], resp_conn: None, launch, denied_keys: BTreeMap::new() };
 
     shared_limiter(&mut cx, inst, out).await;
+    key_families(&mut cx, inst, out).await;
     same_answers(&mut cx, inst, out).await;
-    no_poison(&mut cx, inst, max_denied, &mut child, out).await;
+    large_requests(&mut cx, inst, out).await;
+    if with_slow_reader {
+        slow_reader(&mut cx, inst, out).await;
+    }
+    no_poison(&mut cx, inst, max_denied, log_level == "debug" || log_level == "trace", n, &mut child, out).await;
     check_metrics(&mut cx, inst, max_denied, out).await;
+    abandoned_requests(&mut cx, inst, n, out).await;
     if let Some(st) = child.exited() {
         out.violation("C11", format!("the server process ended by itself ({st})"), cx.tail(cx.log.len().saturating_sub(20)));
     }
@@ -876,9 +1207,11 @@ pub fn run(seed: u64, n: usize, out: &mut Out) {
     let mut rng = Rng::new(seed);
     let instances = (n / 10).clamp(1, 12);
     let plans = plan_instances(&mut rng, instances);
+    // the slow reader (12 .. 16 MB through one RESP connection) runs on one instance, two with 6 instances or more
+    let slow_at = [rng.below(instances as u64) as usize, if instances >= 6 { rng.below(instances as u64) as usize } else { usize::MAX }];
     rt.block_on(async {
         for (inst, plan) in plans.iter().enumerate() {
-            instance(inst, &bin, plan, &mut rng, out).await;
+            instance(inst, &bin, plan, slow_at.contains(&inst), n, &mut rng, out).await;
         }
     });
     rt.shutdown_background();
